@@ -31,11 +31,14 @@ impl<'a, T> Park<'a, T> {
     fn new(queue: &'a InnerQueue<T>) -> Park<'a, T> {
         Park {
             queue,
-            wait_kernel: AtomicBool::new(true),
+            // only `subscribe` enters the kernel: a canceled coroutine never gets there
+            // and its park must not wait for a flag nobody is going to clear
+            wait_kernel: AtomicBool::new(false),
         }
     }
 
     fn delay_drop(&self) -> DropGuard<'_, '_, T> {
+        self.wait_kernel.store(true, Ordering::Relaxed);
         DropGuard(self)
     }
 }
@@ -68,7 +71,12 @@ impl<T> EventSource for Park<'_, T> {
         // re-check the state, only clear once after resume
         // the sender may be gone already: nobody would wake us up then
         if !self.queue.queue.is_empty() || self.queue.channels.load(Ordering::Relaxed) == 0 {
-            if let Some(co) = wait_co.take() {
+            // take the coroutine, then release the kernel flag before running it: it runs
+            // on top of this frame and its park waits for the flag when it is dropped. A
+            // canceled coroutine does not really yield there, it would spin for ever
+            let co = wait_co.take();
+            drop(_g);
+            if let Some(co) = co {
                 run_coroutine(co.into_coroutine());
             }
             // return;
